@@ -758,6 +758,7 @@ func findKnown(known []KnownFinding, prop, fp string) *KnownFinding {
 func minimiseAndConfirm(b *build, scen string, seed uint64, v ViolationOut) (*Replay, error) {
 	var mv ViolationOut
 	resp := &Response{}
+	unminimised := false
 	if v.BySeed {
 		// confirm the crash by running exactly that run again in a fresh process
 		c, err := runWorker(b, Request{Scenario: scen, Seed: seed, Start: v.Run, Stride: 1, Count: 1, Mode: "run"}, 2, 5*time.Minute)
@@ -780,38 +781,60 @@ func minimiseAndConfirm(b *build, scen string, seed uint64, v ViolationOut) (*Re
 	} else {
 		var err error
 		resp, err = runWorker(b, Request{Scenario: scen, Mode: "shrink", TapeS: v.TapeS, TapeW: v.TapeW, Target: v.Class, Property: v.Property}, 2, 15*time.Minute)
+		switch {
+		case err != nil:
+			// the shrinking worker did not come back (runs of the changed code can be very long):
+			// the violation is reported with its unminimised tapes, confirmed in a fresh process below
+			fmt.Fprintf(os.Stderr, "simcheck: minimisation of %s abandoned (%v); reporting the unminimised run\n", v.Class, err)
+			resp = &Response{}
+			mv = v
+			unminimised = true
+		case len(resp.HarnessError) > 0 || len(resp.Violations) == 0:
+			return nil, fmt.Errorf("minimisation failed: %v", resp.HarnessError)
+		default:
+			mv = resp.Violations[0]
+		}
+	}
+	// fresh-process confirmation of the minimised tapes
+	confirm := func(mv ViolationOut) (*Response, error) {
+		c, err := runWorker(b, Request{Scenario: scen, Mode: "replay", TapeS: mv.TapeS, TapeW: mv.TapeW, Trace: true}, 2, 5*time.Minute)
 		if err != nil {
 			return nil, err
 		}
-		if len(resp.HarnessError) > 0 || len(resp.Violations) == 0 {
-			return nil, fmt.Errorf("minimisation failed: %v", resp.HarnessError)
+		found := -1
+		for i := range c.Violations {
+			if c.Violations[i].Class == v.Class && (c.Violations[i].Fingerprint == mv.Fingerprint || unminimised) {
+				found = i
+				break
+			}
 		}
-		mv = resp.Violations[0]
+		if found < 0 {
+			return nil, fmt.Errorf("replay does not reproduce %s in a fresh process (got %d violations)", v.Class, len(c.Violations))
+		}
+		c.Violations[0] = c.Violations[found]
+		if !unminimised && len(c.Traces) == 1 && len(resp.Traces) == 1 && c.Traces[0] != resp.Traces[0] {
+			return nil, fmt.Errorf("replay trace diverged between processes")
+		}
+		return c, nil
 	}
-	// fresh-process confirmation of the minimised tapes
-	c, err := runWorker(b, Request{Scenario: scen, Mode: "replay", TapeS: mv.TapeS, TapeW: mv.TapeW, Trace: true}, 2, 5*time.Minute)
+	c, err := confirm(mv)
+	if err != nil && !unminimised && !strings.Contains(b.Dir, "race") {
+		// The minimised run does not stand on its own (code that reads memory it has given back behaves
+		// differently in another process). The run the search found is what gets reported then - if it
+		// reproduces in a fresh process; if it does not either, the machinery is at fault (exit 2).
+		fmt.Fprintf(os.Stderr, "simcheck: minimised run of %s not confirmed (%v); trying the unminimised run\n", v.Class, err)
+		unminimised = true
+		mv = v
+		c, err = confirm(mv)
+	}
 	if err != nil {
 		return nil, err
-	}
-	found := -1
-	for i := range c.Violations {
-		if c.Violations[i].Class == v.Class && c.Violations[i].Fingerprint == mv.Fingerprint {
-			found = i
-			break
-		}
-	}
-	if found < 0 {
-		return nil, fmt.Errorf("minimised replay does not reproduce %s in a fresh process (got %d violations)", v.Class, len(c.Violations))
-	}
-	c.Violations[0] = c.Violations[found]
-	if len(c.Traces) == 1 && len(resp.Traces) == 1 && c.Traces[0] != resp.Traces[0] {
-		return nil, fmt.Errorf("replay trace diverged between processes")
 	}
 	cv := c.Violations[0]
 	return &Replay{Version: 1, Property: v.Property, Scenario: scen, Backend: "A", VerifSeed: seed, Run: v.Run,
 		Build: map[string]any{"race": strings.Contains(b.Dir, "race"), "fine_grain": strings.Contains(b.Dir, "fine")},
 		TapeS: mv.TapeS, TapeW: mv.TapeW,
-		Minimised: !strings.Contains(b.Dir, "race"),
+		Minimised: !strings.Contains(b.Dir, "race") && !unminimised,
 		Violation: map[string]any{"oracle": cv.Oracle, "fingerprint": cv.Fingerprint, "class": cv.Class, "message": cv.Message, "step": cv.Step, "outcome": cv.Outcome},
 		Summary:   cv.Summary, Faults: cv.Faults, Trace: cv.Trace, Log: cv.Log, ShrinkTests: mv.ShrinkTests}, nil
 }
